@@ -138,6 +138,10 @@ def gen_cases(rng, lib, n):
             rejected += 1
             continue
         b, cnt = c12docs.path_bound(c)
+        if c.get('edit_after'):
+            b = max(b, c12docs.path_bound(c12docs.edited(c, c['edit_after']))[0])
+        if c.get('enter'):
+            b = b * c12docs.norm_inf(c12docs.transform_matrix(c['enter'][1]))
         if b >= c12docs.LIMIT or cnt > MAX_PATHS:
             rejected += 1
             continue
